@@ -59,3 +59,17 @@ Theorem C13_wf_preserved : forall p s, ivf_wf p s ->
   (forall id v, ivf_wf p (fst (vadd_op p s id v))) /\ (forall id, ivf_wf p (fst (vremove_op s id))) /\ ivf_wf p (vflush_op s).
 Proof. exact ivf_wf_preserved. Qed.
 Print Assumptions C13_wf_preserved.
+
+(** rank by rank, the scores for more probes are never worse than for fewer (same state, query, k,
+    threshold and id restriction), and the answer never gets shorter *)
+From Comet Require Import Proofs.IVFMonoP.
+Theorem C13_more_probes_never_worse : forall p s rq rq' q o o',
+  p_kind p = KIVF ->
+  r_docids rq' = r_docids rq -> r_thr rq' = r_thr rq -> r_k rq' = r_k rq ->
+  eff_probes p rq <= eff_probes p rq' ->
+  search_single p s rq q = Ok o -> search_single p s rq' q = Ok o' ->
+  (forall i, (i < length (so_full o))%nat ->
+     skey (nth i (so_full o') (0, 0)) <= skey (nth i (so_full o) (0, 0))) /\
+  (length (so_full o) <= length (so_full o'))%nat /\ (so_cut o <= so_cut o')%nat.
+Proof. exact ivf_probe_monotone. Qed.
+Print Assumptions C13_more_probes_never_worse.
